@@ -15,11 +15,11 @@ Open Scope list_scope.
 
 (* ---------------------------------------------------------------- extensionality in the draws *)
 Lemma add_cte_ext d d' : (forall k, d k = d' k) -> forall a c, add_cte d a c = add_cte d' a c.
-Proof. intros H a c. unfold add_cte. rewrite H. reflexivity. Qed.
+Proof. intros H a c. unfold add_cte. rewrite !H. reflexivity. Qed.
 
 Lemma add_ctes_ext d d' ex new : (forall k, d k = d' k) -> add_ctes d ex new = add_ctes d' ex new.
 Proof.
-  intros H. unfold add_ctes. generalize (mkAcc ex (map c_name ex) [] 0 None).
+  intros H. unfold add_ctes. generalize (mkAcc ex (map c_name ex) [] 0 None 0).
   induction new as [|c t IH]; intros a; simpl; auto. rewrite (add_cte_ext d d' H). apply IH.
 Qed.
 
@@ -28,11 +28,16 @@ Proof.
   intros H. unfold join_model, join_finish. rewrite (add_ctes_ext d d' _ _ H). rewrite !H. reflexivity.
 Qed.
 
+Lemma join_ctr_ext d d' l rt : (forall k, d k = d' k) -> join_ctr d l rt = join_ctr d' l rt.
+Proof. intros H. unfold join_ctr. rewrite (add_ctes_ext d d' _ _ H). reflexivity. Qed.
+
 Lemma run_step_ext g s e d d' p : (forall k, d k = d' k) -> run_step g s e d p = run_step g s e d' p.
 Proof.
   intros H. destruct p; unfold run_step; try (rewrite ?H; reflexivity).
-  destruct (get e l); auto. destruct (get e r); auto. destruct (wrap g (op_from g) f) as [fl new].
-  rewrite (join_model_ext g _ d d' _ _ _ H). reflexivity.
+  - destruct (get e l); auto. destruct (get e r); auto. destruct (wrap g (op_from g) f) as [fl new].
+    rewrite (join_model_ext g _ d d' _ _ _ H), (join_ctr_ext d d' _ _ H). reflexivity.
+  - destruct k; destruct (get e src); try (rewrite ?H; reflexivity).
+    destruct (wrap g (op_from g) f) as [fl new]. rewrite (join_ctr_ext d d' _ _ H). reflexivity.
 Qed.
 
 Definition ev_eq (e e' : ev) : Prop := who e = who e' /\ op e = op e' /\ forall k, dr e k = dr e' k.
@@ -101,7 +106,7 @@ Proof.
   induction l as [|[b s] t IH]; intros [|i is] base all Hlen Hnth; simpl in *; try discriminate; constructor.
   - unfold ev_eq, r_ev. cbn [who op dr]. repeat split. intros k. unfold rd, canon0, pi_of.
     rewrite cancel_of_to. pose proof (Hnth 0 (Nat.lt_0_succ _)) as H0. simpl in H0. rewrite Nat.add_0_r in H0.
-    rewrite <- H0. destruct (Nat.eqb k 3); reflexivity.
+    rewrite <- H0. destruct (is_ctr_slot k); reflexivity.
   - apply IH; [lia|]. intros j Hj. pose proof (Hnth (S j) (proj1 (Nat.succ_lt_mono _ _) Hj)) as H1. simpl in H1.
     rewrite Nat.add_succ_r in H1. exact H1.
 Qed.
@@ -155,16 +160,16 @@ Proof.
 Qed.
 
 (** the canonical annotation with prescribed VALUES-alias numbers *)
-Definition canonC (cs : nat -> nat) : oracle := fun i k => if Nat.eqb k 3 then cs i else to_nat (i, k).
+Definition canonC (cs : nat -> nat -> nat) : oracle := fun i k => if is_ctr_slot k then cs i k else to_nat (i, k).
 
-Lemma annot_canonC A cs l : (forall i, A i 3 = cs i) -> forall base,
+Lemma annot_canonC A cs l : (forall i k, is_ctr_slot k = true -> A i k = cs i k) -> forall base,
   Forall2 ev_eq (annot_idx A (seq base (List.length l)) l)
           (map (r_ev (pi_of A [] 0) (fun n => n)) (annot_idx (canonC cs) (seq base (List.length l)) l)).
 Proof.
   intros Hcs. induction l as [|[b s] t IH]; intros base; simpl; constructor; auto.
   unfold ev_eq, r_ev. cbn [who op dr]. repeat split. intros k. unfold rd, canonC, pi_of.
-  destruct (Nat.eqb k 3) eqn:E.
-  - apply Nat.eqb_eq in E. subst. apply Hcs.
+  destruct (is_ctr_slot k) eqn:E.
+  - apply Hcs; auto.
   - rewrite cancel_of_to. simpl. destruct base; reflexivity.
 Qed.
 
@@ -176,24 +181,24 @@ Proof. intros HA. apply pi_of_inj; auto; [constructor|intros i []]. Qed.
     random atoms only -- of one and the same text.  Consequently the texts agree after erasing the payload of the
     random atoms, and texts without random atoms are identical. *)
 Theorem text_oracle_independent : forall g (A1 A2 : oracle) l b,
-  jointly_injective A1 -> jointly_injective A2 -> (forall i, A1 i 3 = A2 i 3) ->
+  jointly_injective A1 -> jointly_injective A2 -> (forall i k, is_ctr_slot k = true -> A1 i k = A2 i k) ->
   exists C : list obs,
     obs_of b (run g (annotate A1 l)) = map (r_obs (pi_of A1 [] 0) (fun n => n)) C /\
     obs_of b (run g (annotate A2 l)) = map (r_obs (pi_of A2 [] 0) (fun n => n)) C.
 Proof.
   intros g A1 A2 l b H1 H2 Hc.
-  exists (obs_of b (run g (annotate (canonC (fun i => A1 i 3)) l))).
+  exists (obs_of b (run g (annotate (canonC A1) l))).
   split.
   - unfold annotate.
-    rewrite (run_ext g _ _ (annot_canonC A1 (fun i => A1 i 3) l (fun i => eq_refl) 0)).
+    rewrite (run_ext g _ _ (annot_canonC A1 A1 l (fun i k _ => eq_refl) 0)).
     rewrite run_equivariant; [|apply pi_of_nil_inj; auto|auto]. apply obs_of_r.
   - unfold annotate.
-    rewrite (run_ext g _ _ (annot_canonC A2 (fun i => A1 i 3) l (fun i => eq_sym (Hc i)) 0)).
+    rewrite (run_ext g _ _ (annot_canonC A2 A1 l (fun i k E => eq_sym (Hc i k E)) 0)).
     rewrite run_equivariant; [|apply pi_of_nil_inj; auto|auto]. apply obs_of_r.
 Qed.
 
 Corollary text_equal_upto_random_literals : forall g (A1 A2 : oracle) l b,
-  jointly_injective A1 -> jointly_injective A2 -> (forall i, A1 i 3 = A2 i 3) ->
+  jointly_injective A1 -> jointly_injective A2 -> (forall i k, is_ctr_slot k = true -> A1 i k = A2 i k) ->
   map skel_obs (obs_of b (run g (annotate A1 l))) = map skel_obs (obs_of b (run g (annotate A2 l))).
 Proof.
   intros g A1 A2 l b H1 H2 Hc. destruct (text_oracle_independent g A1 A2 l b H1 H2 Hc) as [C [E1 E2]].
@@ -215,7 +220,7 @@ Proof. induction t as [|[]|n IH|l IHl r IHr]; simpl; auto. rewrite IHl, IHr. ref
 (** byte-identical text for programs that do not combine a DataFrame with a relative of itself (no random atom
     survives in the text): the two sessions' observations are equal *)
 Corollary text_identical_when_closed : forall g (A1 A2 : oracle) l b,
-  jointly_injective A1 -> jointly_injective A2 -> (forall i, A1 i 3 = A2 i 3) ->
+  jointly_injective A1 -> jointly_injective A2 -> (forall i k, is_ctr_slot k = true -> A1 i k = A2 i k) ->
   forallb closed_obs (obs_of b (run g (annotate A1 l))) = true ->
   obs_of b (run g (annotate A1 l)) = obs_of b (run g (annotate A2 l)).
 Proof.
